@@ -1,4 +1,5 @@
 import Gonuts.Lemmas.Send
+import Gonuts.Lemmas.Sorter
 /-!
   C18 — send hands over exactly the requested amount, fees included when asked.
   Pure part: coin selection, fee and split arithmetic of the wallet (`Model.Select`, `Model.Amount`),
@@ -437,5 +438,19 @@ theorem swap_balanced {srt : Sorter} (hs : srt.OK) {m : Mint} {inactive active :
 example : NoWrap k6Mint true ([] ++ k6Active) ∧
     (3 : UInt64).toNat + (feesToReceive k6Mint.activePpk 3 true).toNat + feeOptN k6Mint true []
       + feeOptN k6Mint true k6Active < 2 ^ 64 := ⟨⟨by decide, fun _ => by decide⟩, by decide⟩
+
+/-! ## the sorters the correspondence uses -/
+
+/-- Both sorters the driver runs the model with satisfy the hypothesis `Sorter.OK` of the theorems above and
+    sort by amount: the stable one (blind prediction) and, for every observed selection order, the oracle
+    one (replay of Go's tie-breaking) — so a replay can differ from the stable run only in the order of
+    proofs of equal amount. -/
+theorem driver_sorters_ok (chosen : List Nat) :
+    stableSorter.OK ∧ stableSorter.Sorted ∧ (oracleSorter chosen).OK ∧ (oracleSorter chosen).Sorted :=
+  ⟨stableSorter_ok, stableSorter_sorted, oracleSorter_ok chosen, oracleSorter_sorted chosen⟩
+
+/-- three proofs of amount 2: the oracle order `[2, 0]` makes the model pick uid 2, then 0 (stable: 0, 1). -/
+example : selectProofsToSend (oracleSorter [2, 0]) k6Mint [⟨2, 1, 0⟩, ⟨2, 1, 1⟩, ⟨2, 1, 2⟩] 3 true
+    = .ok [⟨2, 1, 2⟩, ⟨2, 1, 0⟩, ⟨2, 1, 1⟩] := by decide
 
 end Gonuts.Props.C18
